@@ -12,7 +12,7 @@ RULE = ("(i) the likelihood table function and the per-point function on synthet
         "scale*(AA^T/NW+0.1I) with log-determinants -3000..+3000, block-Toeplitz Theta from the real optimiser, points up to 50 sigma away, "
         "C/F/strided/read-only data, interpreted + JIT + JIT/boundscheck; (ii,iii) the table at every labelling step and the result fields of "
         "traced runs; non-trivial = distinct synthetic model with NW>=2 or traced run with >=1 table checked; distinct by hash")
-ASSUMPTIONS = ["tolerance = 64 eps (|logdet| + NW log 2pi + (NW+2) sum|d||Theta||d| + NW cond(Theta)); matrices with cond>1e10 are skipped",
+ASSUMPTIONS = ["tolerance = 64 eps (|logdet| + NW log 2pi + (NW+2) sum|d||Theta||d| + NW cond(Theta)); matrices with cond>1e13 are skipped",
                "mpmath (80 digits) arbitrates a sample of entries"]
 SHARD_TIMEOUT = {"quick": 300, "thorough": 3400}
 MIX = {"single:small": 3, "single:general": 2, "single:hostile": 2, "joint:joint": 1}
@@ -92,7 +92,7 @@ def run_synth_case(res, d):
         return
     res.evaluations += 1
     tab = np.asarray(tab)
-    if any(np.linalg.cond(th) > 1e10 for th in ths):
+    if any(np.linalg.cond(th) > 1e13 for th in ths):
         res.skipped("illconditioned")
         return
     ref = gauss.gauss_table(Xc, mus, ths)
@@ -151,7 +151,7 @@ def run_synth_case(res, d):
             tab2 = np.asarray(lk.all_points_all_clusters_log_likelihood(st, X))
             ref2 = gauss.gauss_table(Xc, mus, ths2)
             bound2 = gauss.table_bound(Xc, mus, ths2)
-            if all(np.linalg.cond(t) < 1e10 for t in ths2):
+            if all(np.linalg.cond(t) < 1e13 for t in ths2):
                 if tab2.shape != ref2.shape or not np.all(np.isfinite(tab2)) or np.any(np.abs(tab2 - ref2) > bound2):
                     res.violation("second scoring of the same state after its MRFs were replaced: table deviates from the Gaussian log-density of the "
                                   "current MRFs by %.3g (stale cached quantity?) NW=%d" % (float(np.nanmax(np.abs(tab2 - ref2))), nw), d)
